@@ -35,6 +35,7 @@ def cert_discharge(oid, insts, goal, cex_builder=None, fallback_hyps=None):
     return discharge(oid, fallback_hyps if fallback_hyps is not None else insts, goal, backends=("z3",), timeout_ms=3000,
                      cex_builder=cex_builder)
 from . import xmap_harness as H
+from . import _merge
 
 REL = "gaddlemaps/_exchage_map.py"
 
@@ -65,6 +66,9 @@ def info(prop):
                         "which are enumerated up to the stated bound: the result holds for all real coordinates of those structures (structure-bounded, not a proof for arbitrary size). "
                         "The bounded float twin on the real unstubbed code covers generic, exactly collinear and axis-aligned geometries."),
     }
+    if prop == "C04":
+        from . import b04_history
+        d = _merge.merged_info(d, b04_history)
     return d
 
 
@@ -753,7 +757,8 @@ def task_rigid(prop, part, nparts, tier, seed):
     if part == 0:
         out += l1 + l2
     so3 = spec.is_rotation_hyps(RM)
-    for si, (n, edges, m) in enumerate(structures(tier, seed)[part::nparts]):
+    small = [(2, [(0, 1)], 1), (2, [(0, 1)], 2), (1, [], 1), (1, [], 2)]
+    for si, (n, edges, m) in enumerate((small + structures(tier, seed))[part::nparts]):
         sid = _sid(n, edges, m)
         axis_script = True
         try:
@@ -789,6 +794,18 @@ def task_rigid(prop, part, nparts, tier, seed):
                     fails.append(ob(f"{tag}/ensures.anchor_frame_recomputed_from_argument/{sid}/path{pi}", "refuted", engine="symrun",
                                     cex={"fn": "rigid", "n": n, "edges": [list(e) for e in edges], "m": m, "signature": "frames"}))
                     continue
+                if n == 2 and j == 0:
+                    # the only direction a two-atom reference defines is its bond: the frame's first vector must be built from it
+                    # (third point handed to calcule_base = the second atom), at construction and on every call
+                    for ci, (pts9, F, _p) in enumerate(st.cb_calls):
+                        exp3 = Pt("p", 1) if ci < r["n_cb_first"] else _moved(Pt("p", 1))
+                        okb = all(z3.simplify(x - y).eq(z3.RealVal(0)) for x, y in zip(pts9[6:9], exp3))
+                        n_vc += 1
+                        if not okb:
+                            fails.append(ob(f"{tag}/ensures.two_atom_reference_frame_axis_is_the_bond[call{ci}]/{sid}/path{pi}", "refuted",
+                                            engine="symrun", backend="structure",
+                                            reason="the third point given to calcule_base (end of the first frame vector) is not the second atom",
+                                            cex={"fn": "rigid", "n": 2, "edges": [[0, 1]], "m": m, "signature": "two-atom"}))
                 pr = _proj(Fc, spec.sub(q, a), SV)
                 o1 = [r["out_first"][3 * j + c] for c in range(3)]
                 o2 = [r["out"][3 * j + c] for c in range(3)]
@@ -796,14 +813,19 @@ def task_rigid(prop, part, nparts, tier, seed):
                 equiv = {(rr, c): F1[rr][c] == spec.dot(RM[c], F0[rr]) for rr in range(3) for c in range(3)}
                 mo1 = _moved(o1)
                 okc = True
+                if n < 3:
+                    equiv = None
                 tcert = 0.0
-                for c in range(3):
+                for c in range(3) if equiv else ():
                     # certificate: o2_c - (R o1 + t)_c = sum_r pr_r * (F1_rc - (R F0_r)_c)
                     vv = BK.cert_check(list(equiv.values()), o2[c] == mo1[c], [(pr[rr], equiv[(rr, c)]) for rr in range(3)])
                     tcert += vv.secs
                     okc = okc and vv.status == "discharged"
                 oid = f"{tag}/ensures.commutes_with_rigid_motion(generic anchor, by calcule_base equivariance)[{j}]/{sid}/path{pi}"
-                if okc:
+                if equiv is None:
+                    v = {"status": "discharged"}
+                    n_vc -= 1
+                elif okc:
                     v = ob(oid, "discharged", engine="symrun", backend="cert", secs=tcert)
                 else:
                     v = discharge(oid, list(equiv.values()), z3.And(*[o2[c] == mo1[c] for c in range(3)]), backends=("z3",),
@@ -812,16 +834,18 @@ def task_rigid(prop, part, nparts, tier, seed):
                 if v["status"] != "discharged":
                     fails.append(v)
                 # (ii) every anchor, collinear or not: invariants that need orthonormality only
-                for v in _rigid_invariants(tag, sid, f"{pi}[{j}]", hy, F0, F1, spec.sub(o1, a), spec.sub(o2, a2), pr, ok1, cexb):
+                for v in _rigid_invariants(tag, sid, f"{pi}[{j}]", hy, F0, F1, spec.sub(o1, a), spec.sub(o2, a2), pr, ok1, cexb,
+                                           with_axis=(n >= 2)):
                     n_vc += 1
                     if v["status"] != "discharged":
                         fails.append(v)
                 # (iii) the axis (first frame vector) itself moves rigidly: F1_0 = R F0_0
                 r0 = st.cb_norms[[i for i, c_ in enumerate(st.cb_calls) if c_[1] is F0][0]]
                 r1 = st.cb_norms[idx1]
-                d = spec.sub(Pt("p", sorted(nb[k])[1]), a)
+                if n == 1:
+                    axis_script = False
                 if ok2 and r0 is not None and r1 is not None and axis_script:
-                    n2 = sorted(nb[k])[1]
+                    n2 = sorted(nb[k])[1] if n >= 3 else 1
                     ds0 = spec.sub(Pt("p", n2), a)                       # third - first point at P (as the stub formed it)
                     i1 = [i for i, c_ in enumerate(st.cb_calls) if c_[1] is F1][0]
                     pts1 = st.cb_calls[i1][0]
@@ -993,6 +1017,239 @@ def _geometries(rng, n, edges, kind):
     return P
 
 
+def _rand_rot(rng):
+    q = rng.normal(size=4)
+    q /= np.linalg.norm(q)
+    w, x, y, z = q
+    return np.array([[1 - 2 * (y * y + z * z), 2 * (x * y - z * w), 2 * (x * z + y * w)],
+                     [2 * (x * y + z * w), 1 - 2 * (x * x + z * z), 2 * (y * z - x * w)],
+                     [2 * (x * z - y * w), 2 * (y * z + x * w), 1 - 2 * (x * x + y * y)]])
+
+
+def _frame_atoms(n, edges, a):
+    """(anchor, first neighbour, axis atom) used by the statement: two lowest-numbered bonded atoms; 2-atom reference: the other atom"""
+    if n == 2:
+        return (0, None, 1)
+    if n == 1:
+        return (0, None, None)
+    nbs = sorted(H.neighbours(n, edges)[a])
+    return (a, nbs[0], nbs[1])
+
+
+def _collinear(P, a, n1, n2, tol=1e-6):
+    d, e = np.array(P[n2]) - np.array(P[a]), np.array(P[n1]) - np.array(P[a])
+    return np.linalg.norm(np.cross(d, e)) <= tol * np.linalg.norm(d) * np.linalg.norm(e)
+
+
+def _near_collinear(P, a, n1, n2):
+    d, e = np.array(P[n2]) - np.array(P[a]), np.array(P[n1]) - np.array(P[a])
+    x = np.linalg.norm(np.cross(d, e)) / (np.linalg.norm(d) * np.linalg.norm(e))
+    return 1e-9 < x < 1e-3
+
+
+def numeric_rigid(n, edges, m, P, Q, s, R, t, seed=0):
+    X = _X()
+    edges = [tuple(e) for e in edges]
+    ref, tgt = _real_molecules(n, edges, m, P, Q)
+    R, t = np.array(R, dtype=float), np.array(t, dtype=float)
+    np.random.seed(seed)
+    with np.errstate(all="ignore"):
+        xm = X.ExchangeMap(ref, tgt, s)
+        o1 = np.asarray(xm(ref).atoms_positions, dtype=float)
+        moved = ref.copy()
+        P2 = np.dot(np.array(P, dtype=float), R.T) + t
+        moved.atoms_positions = P2
+        o2 = np.asarray(xm(moved).atoms_positions, dtype=float)
+    bad = []
+    if not (np.all(np.isfinite(o1)) and np.all(np.isfinite(o2))):
+        return ["non-finite mapped coordinates"]
+    sc = max(1.0, float(np.abs(P2).max()), float(np.abs(o2).max()))
+    for j in range(m):
+        if n >= 3:
+            a = expected_anchor(n, edges, P, Q[j])
+            if a is None:
+                continue
+        else:
+            a = 0
+        a_, n1, n2 = _frame_atoms(n, edges, a)
+        v1, v2 = o1[j] - np.array(P[a]), o2[j] - P2[a]
+        generic = n >= 3 and not _collinear(P, a, n1, n2, 1e-3)
+        if n >= 3 and _near_collinear(P, a, n1, n2) and not _collinear(P, a, n1, n2, 1e-9):
+            continue        # neither clearly generic nor exactly collinear: the statement separates the two regimes
+        if generic:
+            exp = np.dot(R, o1[j]) + t
+            if float(np.abs(o2[j] - exp).max()) > 1e-8 * sc:
+                bad.append(f"atom {j}: map(R ref + t) = {o2[j].tolist()}, R map(ref) + t = {exp.tolist()}")
+            continue
+        if abs(np.linalg.norm(v1) - np.linalg.norm(v2)) > 1e-8 * sc:
+            bad.append(f"atom {j}: distance to its anchor changed from {np.linalg.norm(v1)!r} to {np.linalg.norm(v2)!r}")
+        if n2 is not None:
+            u1 = np.array(P[n2]) - np.array(P[a])
+            u1 /= np.linalg.norm(u1)
+            u2 = P2[n2] - P2[a]
+            u2 /= np.linalg.norm(u2)
+            if abs(np.dot(v1, u1) - np.dot(v2, u2)) > 1e-8 * sc:
+                bad.append(f"atom {j}: coordinate along the axis changed from {float(np.dot(v1, u1))!r} to {float(np.dot(v2, u2))!r}")
+            d1 = np.linalg.norm(v1 - np.dot(v1, u1) * u1)
+            d2 = np.linalg.norm(v2 - np.dot(v2, u2) * u2)
+            if abs(d1 - d2) > 1e-7 * sc:
+                bad.append(f"atom {j}: distance from the axis changed from {d1!r} to {d2!r}")
+    return bad
+
+
+def numeric_deform(n, edges, m, P, Q, s, P2, seed=0):
+    X = _X()
+    edges = [tuple(e) for e in edges]
+    ref, tgt = _real_molecules(n, edges, m, P, Q)
+    with np.errstate(all="ignore"):
+        xm = X.ExchangeMap(ref, tgt, s)
+        arg = ref.copy()
+        arg.atoms_positions = np.array(P2, dtype=float)
+        o = np.asarray(xm(arg).atoms_positions, dtype=float)
+    bad = []
+    if not np.all(np.isfinite(o)):
+        return ["non-finite mapped coordinates"]
+    anc = [expected_anchor(n, edges, P, Q[j]) for j in range(m)]
+    sc = max(1.0, float(np.abs(np.array(P2)).max()))
+    for j in range(m):
+        a = anc[j]
+        if a is None:
+            continue
+        d_new = np.linalg.norm(o[j] - np.array(P2[a]))
+        d_old = np.linalg.norm(np.array(Q[j]) - np.array(P[a]))
+        if abs(d_new - s * d_old) > 1e-9 * sc:
+            bad.append(f"atom {j}: distance to anchor {a} is {d_new!r}, s * construction distance = {s * d_old!r}")
+        for i in range(j):
+            if anc[i] == a:
+                dd = np.linalg.norm(o[i] - o[j])
+                d0 = np.linalg.norm(np.array(Q[i]) - np.array(Q[j]))
+                if abs(dd - s * d0) > 1e-9 * sc:
+                    bad.append(f"atoms {i},{j} share anchor {a}: mutual distance {dd!r}, s * construction distance = {s * d0!r}")
+    # locality: displacing any atom other than the anchor and its two lowest-numbered bonded atoms leaves the atom unchanged
+    rng = np.random.default_rng(seed)
+    for x in range(n):
+        P3 = np.array(P2, dtype=float)
+        P3[x] = P3[x] + rng.normal(size=3)
+        arg.atoms_positions = P3
+        with np.errstate(all="ignore"):
+            o3 = np.asarray(xm(arg).atoms_positions, dtype=float)
+        for j in range(m):
+            a = anc[j]
+            if a is None:
+                continue
+            a_, n1, n2 = _frame_atoms(n, edges, a)
+            if x in (a_, n1, n2):
+                continue
+            if float(np.abs(o3[j] - o[j]).max()) > 1e-12 * sc:
+                bad.append(f"atom {j} (anchor {a}, frame neighbours {n1},{n2}) moved by {float(np.abs(o3[j] - o[j]).max())!r} when reference atom {x} was displaced")
+    return bad[:6]
+
+
+def numeric_history(n, edges, m, P, Q, s, confs, seed=0):
+    """map applied to a sequence of conformations: each result equals the result of a fresh map; argument, construction
+    molecules and earlier results are not modified"""
+    X = _X()
+    edges = [tuple(e) for e in edges]
+    ref, tgt = _real_molecules(n, edges, m, P, Q)
+    P0, Q0 = ref.atoms_positions.copy(), tgt.atoms_positions.copy()
+    bad = []
+    with np.errstate(all="ignore"):
+        xm = X.ExchangeMap(ref, tgt, s)
+        earlier = []
+        for ci, C_ in enumerate(confs):
+            arg = ref.copy()
+            arg.atoms_positions = np.array(C_, dtype=float)
+            before = arg.atoms_positions.copy()
+            res = xm(arg)
+            o = np.asarray(res.atoms_positions, dtype=float).copy()
+            ref2, tgt2 = _real_molecules(n, edges, m, P, Q)
+            fresh = np.asarray(X.ExchangeMap(ref2, tgt2, s)(arg).atoms_positions, dtype=float)
+            if float(np.abs(o - fresh).max()) > 1e-12 * max(1.0, float(np.abs(fresh).max())):
+                bad.append(f"call {ci}: result differs from a freshly built map by {float(np.abs(o - fresh).max())!r}")
+            if not np.array_equal(arg.atoms_positions, before):
+                bad.append(f"call {ci}: argument coordinates modified")
+            if not np.array_equal(ref.atoms_positions, P0) or not np.array_equal(tgt.atoms_positions, Q0):
+                bad.append(f"call {ci}: construction molecules modified")
+            for ei, (r_old, o_old) in enumerate(earlier):
+                if not np.array_equal(np.asarray(r_old.atoms_positions, dtype=float), o_old):
+                    bad.append(f"call {ci}: molecule returned by call {ei} was modified")
+            if [a_.name for a_ in res] != [a_.name for a_ in tgt] or len(res) != m:
+                bad.append(f"call {ci}: result does not have the target's atom names/count")
+            earlier.append((res, o))
+    return bad[:6]
+
+
+def _scenario(rng, kind, small_ok=False):
+    """random scenario; kind in generic / collinear-* / two-atom / one-atom"""
+    if kind == "two-atom":
+        n, edges = 2, [(0, 1)]
+    elif kind == "one-atom":
+        n, edges = 1, []
+    else:
+        n = int(rng.integers(3, 8))
+        edges = sorted((int(rng.integers(0, i)), i) for i in range(1, n))
+        if rng.integers(0, 3) == 0:
+            a, b = sorted(rng.choice(n, 2, replace=False).tolist())
+            if (a, b) not in edges:
+                edges.append((a, b))
+        if not H.degree2(n, edges):
+            return None
+    m = int(rng.integers(1, 6))
+    P = _geometries(rng, n, edges, kind if n >= 3 else "generic")
+    if len({tuple(np.round(p, 9)) for p in P}) < n:
+        return None
+    Q = rng.uniform(-2.5, 2.5, size=(m, 3))
+    s = float(rng.choice([1.0, 0.5, 2.0, rng.uniform(0.01, 2.0)]))
+    return n, edges, m, P, Q, s
+
+
+def task_numeric_generic(prop, tier, seed):
+    """bounded twins of C02 / C03 / C04 on the real unstubbed code"""
+    rng = np.random.default_rng(777 + seed)
+    N = 30 if tier == "quick" else 300
+    out = []
+    kinds = {"C02": ("generic", "collinear-axis", "collinear-diagonal", "collinear-integer-direction", "two-atom", "one-atom"),
+             "C03": ("generic", "collinear-axis", "collinear-integer-direction"), "C04": ("generic", "collinear-axis")}[prop]
+    for kind in kinds:
+        first, nbad, nrun = None, 0, 0
+        for t_ in range(N):
+            sc = _scenario(rng, kind)
+            if sc is None:
+                continue
+            n, edges, m, P, Q, s = sc
+            try:
+                if prop == "C02":
+                    R, t = _rand_rot(rng), rng.uniform(-30, 30, size=3)
+                    cex = {"fn": "rigid", "R": R.tolist(), "t": t.tolist()}
+                    bad = numeric_rigid(n, edges, m, P.tolist(), Q.tolist(), s, R, t, seed=t_)
+                elif prop == "C03":
+                    P2 = P + rng.normal(size=P.shape) * 0.4
+                    cex = {"fn": "deform", "P2": P2.tolist()}
+                    bad = numeric_deform(n, edges, m, P.tolist(), Q.tolist(), s, P2.tolist(), seed=t_)
+                else:
+                    confs = [(np.dot(P, _rand_rot(rng).T) + rng.uniform(-5, 5, 3) + rng.normal(size=P.shape) * rng.choice([0, 0.3])).tolist()
+                             for _ in range(int(rng.integers(2, 6)))]
+                    confs.insert(int(rng.integers(0, len(confs))), confs[0])
+                    cex = {"fn": "history", "confs": confs}
+                    bad = numeric_history(n, edges, m, P.tolist(), Q.tolist(), s, confs, seed=t_)
+            except Exception as e:
+                bad = [f"raises {type(e).__name__}: {e}"]
+            nrun += 1
+            if bad:
+                nbad += 1
+                if first is None:
+                    cex.update({"n": n, "edges": [list(e) for e in edges], "m": m, "P": P.tolist(), "Q": Q.tolist(), "s": s, "seed": t_, "signature": kind})
+                    first = (cex, bad)
+        oid = f"{prop}/ExchangeMap.__call__/bounded.real-code-twin/{kind}"
+        if first:
+            out.append(ob(oid, "refuted", kind="bounded", engine="smallscope", backend="numeric-contract", evaluations=nrun,
+                          reason=f"{nbad}/{nrun} scenarios violate; first: {first[1][0]}", cex=first[0]))
+        else:
+            out.append(ob(oid, "discharged", kind="bounded", engine="smallscope", backend="numeric-contract", evaluations=nrun,
+                          sample={"kind": kind, "scenarios": nrun}))
+    return out
+
+
 def task_numeric_law(prop, tier, seed):
     rng = np.random.default_rng(321 + seed)
     N = 40 if tier == "quick" else 400
@@ -1050,19 +1307,27 @@ def tasks(prop, tier, seed):
         nparts = 12 if tier == "quick" else 48
         for p in range(nparts):
             t.append((f"rigid/part{p}", task_rigid, (prop, p, nparts, tier, seed), 1500.0))
+        t.append(("numeric", task_numeric_generic, (prop, tier, seed), 900.0))
     if prop == "C04":
         nparts = 12 if tier == "quick" else 48
         for p in range(nparts):
             t.append((f"history/part{p}", task_history, (prop, p, nparts, tier, seed), 1500.0))
+        t.append(("numeric", task_numeric_generic, (prop, tier, seed), 900.0))
+        from . import b04_history
+        t += b04_history.bounded_tasks(prop, tier, seed)
     if prop == "C03":
         nparts = 12 if tier == "quick" else 48
         for p in range(nparts):
             t.append((f"deform/part{p}", task_deform, (prop, p, nparts, tier, seed), 1500.0))
+        t.append(("numeric", task_numeric_generic, (prop, tier, seed), 900.0))
     return t
 
 
 def replay(prop, cex):
     fn = cex.get("fn")
+    if str(fn).startswith("b04:"):
+        from . import b04_history
+        return b04_history.replay(prop, cex)
     if fn in ("law", "local") :
         rng = np.random.default_rng(0)
         n, edges, m = cex["n"], [tuple(e) for e in cex["edges"]], cex["m"]
@@ -1083,6 +1348,31 @@ def replay(prop, cex):
         return {"reproduced": False, "inputs": cex}
     if fn == "closest":
         return _replay_closest(cex)
+    if fn in ("rigid", "deform", "history"):
+        rng = np.random.default_rng(1)
+        n, edges, m = cex["n"], [tuple(e) for e in cex["edges"]], cex["m"]
+        for trial in range(12):
+            if trial == 0 and cex.get("P") and (fn != "rigid" or cex.get("R")) and (fn != "deform" or cex.get("P2")) and (fn != "history" or cex.get("confs")):
+                P, Q, s_ = np.array(cex["P"]), np.array(cex["Q"]), cex.get("s", 0.7)
+                extra = cex
+            else:
+                P, Q, s_ = rng.uniform(-2, 2, size=(n, 3)), rng.uniform(-2, 2, size=(m, 3)), float(rng.uniform(0.2, 2))
+                extra = {"R": _rand_rot(rng).tolist(), "t": rng.uniform(-9, 9, 3).tolist(), "P2": (P + rng.normal(size=P.shape) * 0.4).tolist(),
+                         "confs": [(P + rng.normal(size=P.shape) * 0.3).tolist(), (np.dot(P, _rand_rot(rng).T) + 3.0).tolist(), P.tolist()], "seed": trial}
+            try:
+                if fn == "rigid":
+                    bad = numeric_rigid(n, edges, m, P.tolist(), Q.tolist(), s_, extra["R"], extra["t"], seed=extra.get("seed", 0))
+                elif fn == "deform":
+                    bad = numeric_deform(n, edges, m, P.tolist(), Q.tolist(), s_, extra["P2"], seed=extra.get("seed", 0))
+                else:
+                    bad = numeric_history(n, edges, m, P.tolist(), Q.tolist(), s_, extra["confs"], seed=extra.get("seed", 0))
+            except Exception as e:
+                bad = [f"raises {type(e).__name__}: {e}"]
+            if bad:
+                return {"reproduced": True, "observed": bad[:3],
+                        "inputs": {"fn": fn, "n": n, "edges": cex["edges"], "m": m, "P": P.tolist(), "Q": Q.tolist(), "s": s_,
+                                   **{k_: extra[k_] for k_ in ("R", "t", "P2", "confs") if k_ in extra}}}
+        return {"reproduced": False, "inputs": cex}
     return {"reproduced": False, "note": "no replay for this counterexample kind", "inputs": cex}
 
 
